@@ -538,8 +538,16 @@ fn c16_pair_oracle<T: El + crate::serde_impls::SerdeEl>(a: &mut SetWorld<T>, b: 
         _ => Some(1_000_000_000),
     };
     let de: SeqDeserializer<_, DeError> = SeqDeserializer::new(LyingIter { inner: src.clone().into_iter(), hint });
+    // `S::default()` differs from the destination's hasher state: deserialising in place keeps the
+    // destination's hasher, and what ends up there must be found with it (the audit below)
+    let (hk, s1, s2) = (b.cfg.hk, a.s.hasher().seed, b.s.hasher().seed);
+    crate::hasher::set_default_hb(hk, s1.wrapping_add(s2).wrapping_add(7));
     let place = &mut b.s;
     let r = window(|| griddle::HashSet::<T, HB>::deserialize_in_place(de, place));
+    crate::hasher::set_default_hb(hk, s2);
+    if b.s.hasher().seed != s2 {
+        vbail!("mismatch", "deserialize_in_place replaced the destination's hasher (seed {} -> {})", s2, b.s.hasher().seed);
+    }
     if let Err(e) = r {
         vbail!("mismatch", "deserialize_in_place failed: {}", e);
     }
@@ -779,6 +787,7 @@ fn c16_set_oracle<T: El + crate::serde_impls::SerdeEl + PartialEq>(w: &mut SetWo
                 vbail!("mismatch", "deserialised set holds {:?}, original {:?}", g, want);
             }
             vcheck_eq!("deserialised == original", got == w.s, true);
+            vcheck_eq!("original == deserialised", w.s == got, true);
             drop(got);
         }
     }
